@@ -1,7 +1,41 @@
 (* Property C04 — string escapes decode exactly, independent of length and
    alignment.  Only statements and `exact` proofs here. *)
-From SJ Require Import Model.Base Model.RefTables Spec.Json Model.Str Tie.StrTablesTie.
+From SJ Require Import Model.Base Model.RefTables Spec.Json Model.Str
+     Proofs.StrArith Proofs.StrProofs Tie.StrTablesTie.
 Open Scope N_scope.
+
+(* Whenever the scalar RFC 8259 decoder accepts the bytes after an opening
+   quote (SOk: well-formed escapes, well-formed surrogate pairs, well-formed
+   UTF-8), the window-level model of parseString — for every string length,
+   every position of every escape relative to the 32-byte windows, whatever
+   follows the closing quote, any maxStringSize, both copy modes, any
+   iteration bound above the memory's length — succeeds,
+   reports exactly the decoded length, and exposes exactly the decoded bytes:
+   referenced in place when copying is off and there is no escape, appended to
+   the string buffer otherwise. *)
+Theorem C04_decode_exact : forall mem sfuel dec rest q0 idx max copy slen fuel,
+  spec_string sfuel mem [] = SOk (dec, rest) -> (length mem < fuel)%nat ->
+  exists src r,
+    mem = src ++ x22 :: rest /\
+    parse_string_model (q0 :: mem) idx max copy slen fuel = Ok r /\
+    ps_len r = N.of_nat (length dec) /\
+    (if negb copy && no_bslash src
+     then ps_app r = [] /\ ps_word r = mk_word TagString (idx + 1) /\ dec = src
+     else ps_app r = dec /\ ps_word r = mk_word TagString (STRINGBUFBIT + slen)).
+Proof. exact parse_string_model_correct. Qed.
+
+(* The validate-only routine and the copy routine walk the same way. *)
+Theorem C04_validate_copy_agree : forall mem max fuel n dec,
+  str_validate mem max fuel = StrOk n dec -> str_copy mem n = StrOk n dec.
+Proof. exact str_validate_copy_agree. Qed.
+
+(* A string the specification rejects for a bad or truncated escape (control
+   characters are stage 1's business) is never accepted by the kernel. *)
+Theorem C04_reject_bad_escape : forall mem sfuel max fuel,
+  spec_string sfuel mem [] = SInvalid -> (length mem < fuel)%nat ->
+  (forall b, In b mem -> 32 <= b2n b) ->
+  forall n d, str_validate mem max fuel <> StrOk n d.
+Proof. exact str_reject_spec_never_ok. Qed.
 
 (* The tables the assembly uses are the reference tables of the model. *)
 Theorem C04_tie_digittoval : digittoval_diff = [].
@@ -9,5 +43,8 @@ Proof. exact tie_digittoval. Qed.
 Theorem C04_tie_escape_map : escape_map_diff = [].
 Proof. exact tie_escape_map. Qed.
 
+Print Assumptions C04_decode_exact.
+Print Assumptions C04_validate_copy_agree.
+Print Assumptions C04_reject_bad_escape.
 Print Assumptions C04_tie_digittoval.
 Print Assumptions C04_tie_escape_map.
